@@ -102,7 +102,7 @@ class YamlDocument(HierDictDocument):
 
         self._from_unicode_handlers[Double] = self._ret_number
         self._from_unicode_handlers[Boolean] = self._ret_bool
-        self._from_unicode_handlers[Integer] = self._ret_number
+        self._from_unicode_handlers[Integer] = self._ret_integer
 
         self._to_unicode_handlers[Double] = self._ret
         self._to_unicode_handlers[Boolean] = self._ret
@@ -139,6 +139,19 @@ class YamlDocument(HierDictDocument):
         if isinstance(value, NON_NUMBER_TYPES):
             raise ValidationError(value)
         if value in (True, False):
+            return int(value)
+        return value
+
+    def _ret_integer(self, cls, value):
+        value = self._ret_number(cls, value)
+        if isinstance(value, float):
+            # a whole number may arrive as a float; anything else is not an
+            # integer (int() refuses NaN and the infinities).
+            try:
+                if int(value) != value:
+                    raise ValidationError(value)
+            except (ValueError, OverflowError):
+                raise ValidationError(value)
             return int(value)
         return value
 
